@@ -349,6 +349,7 @@ impl<L> ClientBuilder<L> {
 			manager: manager.clone(),
 			max_buffer_capacity_per_subscription,
 			ping_interval,
+			disconnect_reason: disconnect_reason.clone(),
 		}));
 
 		tokio::spawn(read_task(ReadTaskParams {
@@ -409,6 +410,7 @@ impl<L> ClientBuilder<L> {
 			manager: manager.clone(),
 			max_buffer_capacity_per_subscription,
 			ping_interval,
+			disconnect_reason: disconnect_reason.clone(),
 		}));
 
 		wasm_bindgen_futures::spawn_local(read_task(ReadTaskParams {
@@ -925,10 +927,11 @@ fn unparse_error(raw: &[u8]) -> Error {
 struct SendTaskParams<T: TransportSenderT, S> {
 	sender: T,
 	from_frontend: mpsc::Receiver<FrontToBack>,
-	close_tx: mpsc::Sender<Result<(), Error>>,
+	close_tx: mpsc::Sender<Result<(), Arc<Error>>>,
 	manager: ThreadSafeRequestManager,
 	max_buffer_capacity_per_subscription: usize,
 	ping_interval: IntervalStream<S>,
+	disconnect_reason: SharedDisconnectReason,
 }
 
 async fn send_task<T, S>(params: SendTaskParams<T, S>)
@@ -943,6 +946,7 @@ where
 		manager,
 		max_buffer_capacity_per_subscription,
 		mut ping_interval,
+		disconnect_reason,
 	} = params;
 
 	// This is safe because `tokio::time::Interval`, `tokio::mpsc::Sender` and `tokio::mpsc::Receiver`
@@ -972,6 +976,9 @@ where
 		}
 	};
 
+	// The cause must be readable before the frontend can observe that the channel is closed.
+	let res = res.map_err(|err| store_disconnect_reason(&disconnect_reason, Arc::new(err)));
+
 	from_frontend.close();
 	crate::verif_point!("client.send_task.frontend_closed");
 	let _ = sender.close().await;
@@ -979,9 +986,14 @@ where
 	let _ = close_tx.send(res).await;
 }
 
+/// Store the disconnect reason unless one has been stored already and return the stored one.
+fn store_disconnect_reason(reason: &SharedDisconnectReason, err: Arc<Error>) -> Arc<Error> {
+	reason.write().expect(NOT_POISONED).get_or_insert(err).clone()
+}
+
 struct ReadTaskParams<R: TransportReceiverT, S> {
 	receiver: R,
-	close_tx: mpsc::Sender<Result<(), Error>>,
+	close_tx: mpsc::Sender<Result<(), Arc<Error>>>,
 	to_send_task: mpsc::Sender<FrontToBack>,
 	manager: ThreadSafeRequestManager,
 	max_buffer_capacity_per_subscription: usize,
@@ -1053,11 +1065,11 @@ where
 	};
 
 	crate::verif_point!("client.read_task.before_close_tx");
-	let _ = close_tx.send(res).await;
+	let _ = close_tx.send(res.map_err(Arc::new)).await;
 }
 
 async fn wait_for_shutdown(
-	mut close_rx: mpsc::Receiver<Result<(), Error>>,
+	mut close_rx: mpsc::Receiver<Result<(), Arc<Error>>>,
 	client_dropped: oneshot::Receiver<()>,
 	err_to_front: SharedDisconnectReason,
 ) {
@@ -1068,6 +1080,6 @@ async fn wait_for_shutdown(
 	// Send an error to the frontend if the send or receive task completed with an error.
 	if let Either::Left((Some(Err(err)), _)) = future::select(rx_item, client_dropped).await {
 		crate::verif_point!("client.shutdown.before_store_cause");
-		*err_to_front.write().expect(NOT_POISONED) = Some(Arc::new(err));
+		store_disconnect_reason(&err_to_front, err);
 	}
 }
